@@ -403,7 +403,7 @@ Proof.
             let mid := next_mid st in
             let sm := {| sm_type := cm_type m; sm_keys := cm_keys m; sm_frags := []; sm_done_number := 0; sm_del_num := 0;
                          sm_done := true; sm_rsp := out; sm_error := [] |} in
-            let st' := bump_mid (set_msg st mid {| pm_client := c; pm_sm := sm; pm_reqs := []; pm_seq := pc_sent cl; pm_moved := [] |}) in
+            let st' := bump_mid (set_msg st mid {| pm_client := c; pm_sm := sm; pm_reqs := []; pm_seq := pc_sent cl; pm_moved := []; pm_route := [] |}) in
             set_client st' c {| pc_open := pc_open cl; pc_left := pc_left cl; pc_queue := pc_queue cl ++ [mid]; pc_got := pc_got cl;
                                 pc_sent := S (pc_sent cl); pc_hist := pc_hist cl; pc_closing := pc_closing cl |}
         end) None).
@@ -461,7 +461,8 @@ Proof.
     rewrite Rc, Hl.
     set (mid := next_mid st1).
     set (pm := {| pm_client := c; pm_sm := smsg_of m (groups_for m);
-                  pm_reqs := map (fun sf : N * cfrag => (fst sf, cf_req (snd sf))) (cm_body m); pm_seq := pc_sent cl; pm_moved := [] |}).
+                  pm_reqs := map (fun sf : N * cfrag => (fst sf, cf_req (snd sf))) (cm_body m); pm_seq := pc_sent cl; pm_moved := [];
+                  pm_route := map (fun sf : N * cfrag => (fst sf, slot_master st (fst sf))) (by_slot (cm_body m)) |}).
     set (st2 := bump_mid (set_msg st1 mid pm)).
     pose proof (fold_enqueue_same targets mid st2) as (Fc & Fm & Fn).
     set (st3 := fold_left (fun s (t : N * nat) => enqueue_out s (snd t) (FReq mid (fst t))) targets st2) in *.
@@ -571,7 +572,7 @@ Proof.
     destruct (merge_step Hash (cf_limit (cfg st0)) (pm_sm m) slot ty rsp) as [[sm'|]|w|]; try discriminate.
     2:{ intro E. inversion E; subst. exact H0. }
     destruct (is_auth_failure ty); [discriminate|].
-    set (m' := {| pm_client := pm_client m; pm_sm := sm'; pm_reqs := pm_reqs m; pm_seq := pm_seq m; pm_moved := pm_moved m |}).
+    set (m' := {| pm_client := pm_client m; pm_sm := sm'; pm_reqs := pm_reqs m; pm_seq := pm_seq m; pm_moved := pm_moved m; pm_route := pm_route m |}).
     assert (H1 : CInvG (set_msg st0 mid m') (Some (pm_client m))).
     { apply set_msg_inv with (m := m) (ex := None); [exact Hm | reflexivity | reflexivity | left; reflexivity | exact H0]. }
     destruct (lookup (pm_client m) (clients (set_msg st0 mid m'))) as [cl|] eqn:Hcl.
@@ -666,7 +667,7 @@ Qed.
 
 Theorem step_inv st e st' : CInvG st None -> step st e = ROk st' -> CInvG st' None.
 Proof.
-  intros H. destruct e as [c adm|c b totals|order|s b|c|s| |s]; cbn [step].
+  intros H. destruct e as [c adm|c b totals|order|s b|c|s| |s|nodes newslots]; cbn [step].
   - destruct (lookup c (clients st)) as [cl|] eqn:Hl; intro E; inversion E; subst; [exact H|].
     destruct H as [H1 H2]. split; [|exact H2].
     intros c' cl' Hl'. cbn [set_client clients] in Hl'. rewrite lookup_update in Hl'.
@@ -681,7 +682,11 @@ Proof.
   - intro E. inversion E; subst. apply close_client_inv, H.
   - intro E. inversion E; subst. apply close_server_inv, H.
   - intro E. inversion E; subst. apply timeout_scan_inv, H.
-  - intro E. inversion E; subst. eapply CInvG_same; [apply same_cm_set_tasks | exact H].
+  - destruct (find_pool st s) as [p|]; [|intro E; inversion E; subst; exact H].
+    pose proof (same_cm_pool_get st p) as Hcm. destruct (pool_get st p) as [st1 [s1|]]; cbn [fst] in Hcm; intro E; inversion E; subst.
+    + eapply CInvG_same; [eapply same_cm_trans; [exact Hcm | apply same_cm_set_tasks] | exact H].
+    + eapply CInvG_same; [exact Hcm | exact H].
+  - intro E. inversion E; subst. eapply CInvG_same; [|exact H]. repeat split.
 Qed.
 
 Theorem run_inv evs : forall st st', CInvG st None -> run st evs = ROk st' -> CInvG st' None.
